@@ -15,19 +15,22 @@ def slots_cfg(n, maxmax, weak=(), rendezvous=False, props=True):
         s += "PROPERTIES C07_Progress C07_EachRuns\n"
     return s
 
-def normalize_slots(events, mx):
+def normalize_slots(events, mx, cores=None):
+    """cores: CoresPerTask as CONFIGURED per process (the property speaks about those); the value the task
+    logged is only used for processes the instance does not describe"""
     rows = [dict(e="header", max=mx)]
     for ev in events:
         e = ev["ev"]
         if e in ("exec.begin",):
-            rows.append(dict(e=e, g=ev["g"], cores=ev["cores"]))
+            proc = str(ev.get("task", "")).split(":")[0]
+            rows.append(dict(e=e, g=ev["g"], cores=(cores or {}).get(proc, ev["cores"])))
         elif e in ("exec.skip", "slots.lock", "slots.unlock", "slots.dep.done", "slots.rel.begin", "cmd.start", "cmd.end"):
             rows.append(dict(e=e, g=ev["g"]))
     return rows
 
 def saturating_instance(rng, k):
     """several processes with different CoresPerTask competing for few slots"""
-    mx = rng.choice([2, 3, 4, 5])
+    mx = rng.choice([1, 2, 3, 4, 5])
     nproc = rng.choice([1, 2, 3])
     n = rng.choice([4, 6, 8])
     procs = [zoo.src("s", zoo.items(n))]
@@ -35,6 +38,8 @@ def saturating_instance(rng, k):
     for i in range(nproc):
         c = rng.randint(1, mx)
         procs.append(zoo.cmd("w%d" % i, ["in"], ["out"], cores=c))
+        if rng.random() < 0.3:
+            procs[-1]["prepend"] = "env VERIF_PREPENDED=1"      # Process.Prepend: same slot accounting as any other task
         edges.append(zoo.E("s.out", "w%d.in" % i))
     inst = dict(name="SAT%d" % k, max=mx, bufsize=rng.choice([1, 4, 128]), procs=procs, edges=edges,
                 ctl={"ALL.sleep": rng.choice(["0.02", "0.05"])})
@@ -85,6 +90,13 @@ def real_saturating(chk, tier, own):
     build("wfdriver")
     insts = [saturating_instance(rng, k) for k in range(24 if tier == "thorough" else 8)]
     insts.append(zoo.Z13(n=4, mx=3)); insts.append(zoo.Z13(n=3, mx=4))
+    # the smallest configuration (one slot) and prepended commands with several cores, always present
+    insts.append(dict(name="SATONE", max=1, bufsize=4, procs=[zoo.src("s", zoo.items(4)), zoo.cmd("w0", ["in"], ["out"]), zoo.cmd("w1", ["in"], ["out"])],
+                      edges=[zoo.E("s.out", "w0.in"), zoo.E("s.out", "w1.in")], ctl={"ALL.sleep": "0.03"}))
+    pp = dict(name="SATPREPEND", max=3, bufsize=4, procs=[zoo.src("s", zoo.items(5)), zoo.cmd("w0", ["in"], ["out"], cores=2), zoo.cmd("w1", ["in"], ["out"], cores=3)],
+              edges=[zoo.E("s.out", "w0.in"), zoo.E("s.out", "w1.in")], ctl={"ALL.sleep": "0.03"})
+    pp["procs"][1]["prepend"] = "env VERIF_PREPENDED=1"; pp["procs"][2]["prepend"] = "env VERIF_PREPENDED=2"
+    insts.append(pp)
     # re-run shape: some outputs exist already (skipped tasks must not touch the slots)
     pre = saturating_instance(rng, 99); pre["pre"] = ["w0.out_2", "w0.out_3"]; insts.append(pre)
     # streaming producer/consumer pairs compete for the slots like everybody else
@@ -99,8 +111,9 @@ def real_saturating(chk, tier, own):
         vs = fc.jitter_variants(random.Random(rng.random()), 3 if tier == "quick" else 6, bufs=(inst["bufsize"],))
         rrs = fc.real_runs(inst, vs, timeout=60)
         rows = []
+        conf = {p["name"]: p.get("cores", 1) for p in inst["procs"]}
         for rr in rrs:
-            rows += normalize_slots(rr.events, inst["max"])
+            rows += normalize_slots(rr.events, inst["max"], conf)
         res = run_tlc("SlotsTrace", "SlotsTrace.cfg", files={"trace.ndjson": ndjson(rows)}, workers=1, timeout=300)
         return inst, rrs, res, len(rows)
     for inst, rrs, res, nrows in pmap(one, insts, workers=8):
@@ -116,6 +129,10 @@ def real_saturating(chk, tier, own):
                 continue
             if rr.rc != 0:
                 chk.undecided.append("saturating workload %s failed rc=%s: %s" % (inst["name"], rr.rc, rr.stderr[-200:])); continue
+            caps = {e["max"] for e in rr.events if e["ev"] == "wire.done"}
+            if caps - {inst["max"]} and "C06" in own:
+                chk.violation("workflow created with maxConcurrentTasks=%d runs with %s slot tokens (%s)" % (inst["max"], sorted(caps), inst["name"]),
+                              dict(instance=ninst, variant=rr.variant))
             peak = overlap_peak(rr, inst)
             if peak > inst["max"] and "C06" in own:
                 chk.violation("commands' own start/end stamps show %d cores executing at once, maxConcurrentTasks=%d (%s)" % (peak, inst["max"], inst["name"]),
